@@ -150,6 +150,19 @@ Error query_rw_info(const BaseInst& inst, const Operand_* operands, size_t op_co
       op._consecutive_lead_count = 0;
 
       if (src_op.is_reg()) {
+        if (src_op.as<Vec>().has_element_index()) {
+          // Only one element of each register of the list is accessed (single-structure LDn|STn) - the rest of a
+          // loaded register keeps its content.
+          VecElementType element_type = src_op.as<Vec>().element_type();
+          uint32_t element_index = src_op.as<Vec>().element_index();
+
+          uint32_t element_size = element_type_size_table[size_t(element_type)];
+          uint64_t access_mask = uint64_t(Support::lsb_mask<uint32_t>(element_size)) << (element_index * element_size);
+
+          op._read_byte_mask &= access_mask;
+          op._write_byte_mask &= access_mask;
+        }
+
         if (i == list_first) {
           op._consecutive_lead_count = uint8_t(list_count);
         }
